@@ -131,6 +131,9 @@ type Node struct {
 	CreateInvoiceErr bool
 	Sched            Sched
 	AutoNotify       bool
+	// LateAnswers: the answer of a pay / status call is computed when the call is made and delivered at a second
+	// scheduling point ("<call>:answer"): a backend that answers slowly while other requests run.
+	LateAnswers bool
 }
 
 func (n *Network) NewNode(name string) *Node {
@@ -502,6 +505,9 @@ func (nd *Node) pay(ctx context.Context, name, request string, amountMsat, maxFe
 	if notifyHash != "" && auto {
 		nd.Net.Notify(notifyHash)
 	}
+	if nd.LateAnswers {
+		nd.point(name + ":answer")
+	}
 	return res, rerr
 }
 
@@ -571,6 +577,9 @@ func (nd *Node) OutgoingPaymentStatus(ctx context.Context, hash string) (lightni
 	nd.Net.mu.Unlock()
 	if notifyHash != "" && auto {
 		nd.Net.Notify(notifyHash)
+	}
+	if nd.LateAnswers {
+		nd.point("OutgoingPaymentStatus:answer")
 	}
 	return res, rerr
 }
